@@ -57,6 +57,8 @@ pub struct PointCloudWriter<'a, T: Read + Write + Seek> {
     humidity: Option<f64>,
     atmospheric_pressure: Option<f64>,
     finalized: bool,
+    custom_intensity_limits: bool,
+    custom_color_limits: bool,
 }
 
 impl<'a, T: Read + Write + Seek> PointCloudWriter<'a, T> {
@@ -168,6 +170,8 @@ impl<'a, T: Read + Write + Seek> PointCloudWriter<'a, T> {
             humidity: None,
             atmospheric_pressure: None,
             finalized: false,
+            custom_intensity_limits: false,
+            custom_color_limits: false,
         })
     }
 
@@ -265,6 +269,7 @@ impl<'a, T: Read + Write + Seek> PointCloudWriter<'a, T> {
     /// Since the data type range might be bigger than the actual sensor range,
     /// it is strongly recommended to set this limit manually.
     pub fn set_intensity_limits(&mut self, value: Option<IntensityLimits>) {
+        self.custom_intensity_limits = true;
         self.intensity_limits = value;
     }
 
@@ -275,6 +280,7 @@ impl<'a, T: Read + Write + Seek> PointCloudWriter<'a, T> {
     /// Since the data type range might be different from the actual limits,
     /// it is strongly recommended to set this limit manually.
     pub fn set_color_limits(&mut self, value: Option<ColorLimits>) {
+        self.custom_color_limits = true;
         self.color_limits = value;
     }
 
@@ -557,6 +563,24 @@ impl<'a, T: Read + Write + Seek> PointCloudWriter<'a, T> {
     pub fn finalize(&mut self) -> Result<()> {
         if self.finalized {
             Error::invalid("The point cloud was already finalized")?
+        }
+
+        // Limits set by the caller need all their members, incomplete limits cannot be stored
+        if let (true, Some(limits)) = (self.custom_intensity_limits, &self.intensity_limits) {
+            if limits.intensity_min.is_none() || limits.intensity_max.is_none() {
+                Error::invalid("Intensity limits need a minimum and a maximum")?
+            }
+        }
+        if let (true, Some(limits)) = (self.custom_color_limits, &self.color_limits) {
+            if limits.red_min.is_none()
+                || limits.red_max.is_none()
+                || limits.green_min.is_none()
+                || limits.green_max.is_none()
+                || limits.blue_min.is_none()
+                || limits.blue_max.is_none()
+            {
+                Error::invalid("Color limits need a minimum and a maximum for red, green and blue")?
+            }
         }
 
         // Flush remaining points from buffer into byte streams and write them
